@@ -123,6 +123,16 @@ class Prop:
         if case.get("kind") == "crashed":
             return
         evs = case["evs"]
+        if any(e.get("flood") for e in evs):
+            # a buffer-sharing failure after cookie load is scheduling dependent: delta debugging on it only burns time.
+            # Keep the scenario up to the failing step.
+            pos = (case.get("_pos") or {}).get("2")
+            if pos is not None and pos + 1 < len(evs) and not case.get("_cut"):
+                c = dict(case)
+                c["evs"] = evs[:pos + 1]
+                c["_cut"] = True
+                yield c
+            return
         free = [i for i, e in enumerate(evs) if e["k"] not in ("hs", "hsu")]
         # drop runs of non-handshake events (handshakes define the session serials)
         chunk = max(len(free) // 2, 1)
